@@ -11,7 +11,8 @@ ROUTER, OWNER = sr.ROUTER, sr.OWNER
 TOKS = range(1, sr.NTOK + 1)
 RULE = ("stateful histories on the real router + pair template: createPair/removePair in both token orders by owner and "
         "users with public creation on/off, pairs deployed outside the router that report the tokens of registered pairs, "
-        "removed pairs, non-pair addresses; pause/resume/setFeeOn/setFeeOff/setLocalRoles/issueLpToken on all of these; "
+        "removed pairs, non-pair addresses; pause/resume/setFeeOn/setFeeOff/setLocalRoles/issueLpToken/setSwapEnabledByUser "
+        "on all of these; "
         "multiPairSwap with 1..4 hops mixing fixed-input/fixed-output, slippage bounds either side of the computed amount, "
         "repeated pairs, foreign addresses at any hop, tokens donated to the router beforehand. Non-trivial = successful "
         "multi-hop (distinct by hop count, in/out pattern, residual count, distinct pairs, fee state, magnitude), failed "
@@ -92,7 +93,7 @@ def monitor(cfg, op, o):
         if gp.get((a, b)) != na or gp.get((b, a)) != na:
             out.append(("created-pair-not-resolvable", f"{op}: getPair now gives {gp.get((a, b))}/{gp.get((b, a))}, created {na}"))
     # ---- registered pairs only
-    if o["ok"] and k in ("Pause", "Resume", "RSetFeeOn", "RSetFeeOff", "SetLocalRoles", "IssueLp"):
+    if o["ok"] and k in ("Pause", "Resume", "RSetFeeOn", "RSetFeeOff", "SetLocalRoles", "IssueLp", "EnableSwap"):
         ad = op[2]
         if ad != ROUTER and ad not in pre["all"]:
             out.append((f"unregistered-pair-accepted:{k}", f"{op} succeeded on {addr_kind(pre, ad)} address {ad}; managed {pre['all']}"))
@@ -177,6 +178,9 @@ def nontrivial(cfg, op, o):
         return ("remove", o["ok"], c == OWNER, order, pre["active"], len(pre["all"]))
     if k in ("Pause", "Resume", "RSetFeeOn", "RSetFeeOff", "SetLocalRoles", "IssueLp"):
         return (k, o["ok"], op[1] == OWNER, addr_kind(pre, op[2]), pre["active"])
+    if k == "EnableSwap":
+        st = pre["pairs"][op[2]]["state"] if op[2] in pre["pairs"] else -1
+        return (k, o["ok"], addr_kind(pre, op[2]), st, op[3], op[4] == op[2], pre["active"])
     if k == "UpgradePair":
         return (k, o["ok"], op[1] == OWNER, bool(pre["getpair"].get((op[2], op[3]), 0)))
     return None
